@@ -96,7 +96,7 @@ def check_visitor(ctx: Ctx, env, A: SqlAnalysis, langs, done: Dict[str, Dict[str
         if kind == "Call":
             continue
         label = A.variant_label(kind, discr, None)
-        has = A.node_tmpls.get((kind, discr)) is not None
+        has = A.node_tmpls.get((kind, discr)) is not None or A.H.generic_refuses(A.vcls)
         if not has:
             wit = witness.LITERALS.get(kind) or witness.example(kind, discr)
             w = {"Attribute": "rel/a eq 1", "Time": "t eq 12:00:00", "Geography": "g eq geography'POINT(1 2)'", "UnaryOp": "-a gt 5",
@@ -132,7 +132,7 @@ def check_visitor(ctx: Ctx, env, A: SqlAnalysis, langs, done: Dict[str, Dict[str
             ctx.fail("R1.non-empty", key, f"handler can return an empty SQL fragment under {t.path.cond_str()[:140]}", t.where,
                      "x eq duration'P'" if t.kind == "Duration" else None)
         probs = sorted(set(st.problems))
-        ctx.check(not probs, "R1.well-formed", f"{key}|{_shape(txt)}", f"template `{_clip(txt)}` is not well-formed SQL: {probs}", t.where,
+        ctx.check(not probs, "R1.well-formed", f"{key}", f"template `{_clip(txt)}` is not well-formed SQL: {probs}", t.where,
                   _func_witness(t))
         # raw values outside quotes must be SQL tokens
         for tok in st.toks:
@@ -269,7 +269,10 @@ def _exactly_once(ctx: Ctx, A: SqlAnalysis, t: Tmpl, key: str):
         df = A.kf.kinds.discr_field(t.kind)
         want = [f"node.{f.name}" for f in nc.fields if f.shape in ("node", "list_node", "optional_node") and f.name != df]
         got = [p for p in paths if p.count(".") == 1 and not (df and p == f"node.{df}")]
-        if want:
+        null_swap = sorted(got) == sorted(want) and any(
+            hole_node(tok) is not None and hole_node(tok).kinds == {"Null"} for tok in t.st.holes) and \
+            any(x.kind == "op" and x.text in ("IS", "IS NOT") for x in t.st.toks)
+        if want and not null_swap:
             ctx.check(got == want, "R4.operands-once-in-order", key,
                       f"template `{_clip(t.text())}` contains the operands {got}; each of {want} must appear exactly once, in source order", t.where,
                       _func_witness(t))
